@@ -63,9 +63,10 @@ type consumerGroup struct {
 	memberID string
 	errors   chan error
 
-	lock      sync.Mutex
-	closed    chan none
-	closeOnce sync.Once
+	lock       sync.Mutex
+	errorsLock sync.RWMutex
+	closed     chan none
+	closeOnce  sync.Once
 
 	userData []byte
 }
@@ -130,6 +131,8 @@ func (c *consumerGroup) Close() (err error) {
 
 		// drain errors
 		go func() {
+			c.errorsLock.Lock()
+			defer c.errorsLock.Unlock()
 			close(c.errors)
 		}()
 		for e := range c.errors {
@@ -429,6 +432,8 @@ func (c *consumerGroup) handleError(err error, topic string, partition int32) {
 		return
 	}
 
+	c.errorsLock.RLock()
+	defer c.errorsLock.RUnlock()
 	select {
 	case <-c.closed:
 		// consumer is closed
